@@ -21,7 +21,7 @@ compact layouts which put labels into the boundary slots (slot 0 = the
 GETOPT_SWITCH line, the line directly above GETOPT_DEFAULT, labels on
 consecutive lines sharing a statement or falling through into the default
 block, GETOPT_MISSING_ARG first / in the middle / last / absent, a table of
-zero slots, one slot, 702 slots).  A block shared by several labels records
+zero slots, one slot, 272 slots).  A block shared by several labels records
 what a program can observe there: the string GETOPT returned, optarg and
 optind.  The number of warning lines written to stderr is compared too.
 Every vector is parsed after `optreset = 1` following another
@@ -82,7 +82,7 @@ TABLES = [
                  'slots, both fall into DEFAULT'),
     Table({'-a': 0, '-m': 1, '--mid': 0, '--max': 1, '-z': 1, '--zz': 1}, False, rich=True,
           tail=('-z', '--zz'),
-          layout='702 slots: labels in 1, 255+256 (shared statement), 259, and 700, 701 (fall into DEFAULT)'),
+          layout='272 slots: labels in 1, 255+256 (shared statement), 259, and 270, 271 (fall into DEFAULT)'),
     Table({}, False, rich=True, layout='whole switch on one line: zero slots'),
     Table({'-x': 1}, False, rich=True, tail=('-x',),
           layout='one slot: OPTARG label in slot 0 = last slot, falls into DEFAULT'),
@@ -90,6 +90,21 @@ TABLES = [
           layout='one line per label with its own statement: slot 1 empty, -r, MISSING_ARG, --in, -i, '
                  '--raw in the last slot'),
 ]
+
+
+# Table 10 costs several times more per parse (272 longjmps to build the
+# table): it is drawn less often by the random generators.
+WEIGHTS = [1.0] * len(TABLES)
+WEIGHTS[10] = 0.25
+_CUM = list(itertools.accumulate(WEIGHTS))
+
+
+def pick_table(rnd):
+    x = rnd.random() * _CUM[-1]
+    for i, c in enumerate(_CUM):
+        if x < c:
+            return i
+    return len(_CUM) - 1
 
 
 def sig(*a):
@@ -177,8 +192,16 @@ def model(tid, args, limit=-1):
     return ev, i + 1, flags
 
 
+_ENC = {}
+
+
 def enc_arg(s):
-    return s.encode('latin-1').hex() if s else '_'
+    r = _ENC.get(s)
+    if r is None:
+        r = s.encode('latin-1').hex() if s else '_'
+        if len(_ENC) < 100000:
+            _ENC[s] = r
+    return r
 
 
 def enc_argv(args):
@@ -229,7 +252,17 @@ def expect(tid, args, opterr=0):
 # Alphabets
 # --------------------------------------------------------------------------
 
+_ALPHA = {}
+
+
 def alphabet(tid, reduced=False):
+    k = (tid, reduced)
+    if k not in _ALPHA:
+        _ALPHA[k] = tuple(_alphabet(tid, reduced))
+    return _ALPHA[k]
+
+
+def _alphabet(tid, reduced=False):
     opts = TABLES[tid].opts
     shorts = [o for o in opts if not o.startswith('--')]
     longs = [o for o in opts if o.startswith('--')]
@@ -305,10 +338,10 @@ def mk_case(rnd, tid, args, kind='getopt', with_prev=True):
     exp, ev, flags = expect(tid, args, opterr)
     line = 'G %d %d %s' % (tid, opterr, enc_argv(args))
     if with_prev:
-        ptid = rnd.randrange(len(TABLES))
+        ptid = pick_table(rnd)
         pargs = rand_args(rnd, ptid, 5)
-        pev, _, _ = model(ptid, pargs)
-        plimit = rnd.randrange(1, len(pev) + 1) if (pev and rnd.random() < 0.6) else -1
+        # abandoned once plimit labels were reached, if that many are reached
+        plimit = rnd.randrange(1, 5) if rnd.random() < 0.6 else -1
         line += ' %d %d %s' % (ptid, plimit, enc_argv(pargs))
     flags = set(flags)
     if exp.endswith(' 0'):
@@ -319,7 +352,7 @@ def mk_case(rnd, tid, args, kind='getopt', with_prev=True):
     labels = tuple((e[0], e[1]) for e in ev)
     return {'line': line, 'expect': exp, 'kind': kind,
             'sig': sig(tid, labels, exp.split(' ')[1], tuple(sorted(flags))),
-            'nt': nontrivial(flags), 'flags': flags}
+            'nt': nontrivial(flags), 'flags': flags, 'tid': tid}
 
 
 def exhaustive(tid, length, reduced):
@@ -345,6 +378,11 @@ def run_batch(exe, cases, acc):
             st[k] = st.get(k, 0) + 1
         if len(c['line'].split()) > 4:
             st['parsed_after_optreset'] = st.get('parsed_after_optreset', 0) + 1
+        k = 'table%d_vectors' % c['tid']
+        st[k] = st.get(k, 0) + 1
+        if 'tailopt' in c['flags']:
+            k = 'table%d_vectors_reaching_a_label_that_falls_into_default' % c['tid']
+            st[k] = st.get(k, 0) + 1
 
 
 def _shard(a):
@@ -365,6 +403,7 @@ def _shard(a):
             cases = []
 
     idx = 0
+    tsamples = acc['tsamples'] = {}
     for (tid, length, reduced) in plan:
         for args in exhaustive(tid, length, reduced):
             idx += 1
@@ -373,12 +412,14 @@ def _shard(a):
             if acc.get('stop'):
                 break
             cases.append(mk_case(rnd, tid, list(args)))
+            if tid not in tsamples and 'tailopt' in cases[-1]['flags'] and length >= 2:
+                tsamples[tid] = '%s -> R %s' % (cases[-1]['line'], cases[-1]['expect'])
             acc['stats']['exhaustive_vectors'] = acc['stats'].get('exhaustive_vectors', 0) + 1
             flush()
     for _ in range(nrand):
         if acc.get('stop'):
             break
-        tid = rnd.randrange(len(TABLES))
+        tid = pick_table(rnd)
         cases.append(mk_case(rnd, tid, rand_args(rnd, tid)))
         flush()
     flush(True)
@@ -391,7 +432,7 @@ def _fresh(a):
     rnd = random.Random(seed)
     acc = {'evals': 0, 'sigs': set(), 'alarms': [], 'stats': {}}
     for _ in range(count):
-        tid = rnd.randrange(len(TABLES))
+        tid = pick_table(rnd)
         c = mk_case(rnd, tid, rand_args(rnd, tid), kind='getopt-fresh', with_prev=False)
         run_batch(exe, [c], acc)
         if acc.get('stop'):
@@ -474,9 +515,23 @@ def run(ctx):
     nfresh = max(1, ctx.n(480, 6400) // n)
     fres = core.pmap(_fresh, [(exe, seeds[n + i], nfresh) for i in range(n)])
     core.merge(ctx, fres)
-    for r in res[:4]:
-        for s in r['samples'][:2]:
+    for r in res[:2]:
+        for s in r['samples'][:1]:
             ctx.add_sample(s[:200])
+    for tid in (6, 7, 9, 10, 12, 8):        # compact tables: a vector reaching the last slots, with the answer
+        for r in res:
+            if tid in r.get('tsamples', {}):
+                ctx.add_sample(r['tsamples'][tid][:300])
+                break
+    # every boundary slot must have been exercised
+    if not ctx.violations:
+        for tid, T in enumerate(TABLES):
+            tot = sum(r['stats'].get('table%d_vectors' % tid, 0) for r in res)
+            tl = sum(r['stats'].get('table%d_vectors_reaching_a_label_that_falls_into_default' % tid, 0)
+                     for r in res)
+            if tot == 0 or (T.tail and tl == 0):
+                raise core.Inconclusive('table %d was not exercised (%d vectors, %d reaching its last slots)'
+                                        % (tid, tot, tl))
     ctx.cov['tables'] = ['%d: %s%s [%s]' % (i, ' '.join(o + (':' if h else '') for o, h in t.opts.items()),
                                             ' +MISSING_ARG' if t.missing else '', t.layout)
                          for i, t in enumerate(TABLES)]
@@ -485,15 +540,27 @@ def run(ctx):
     ctx.cov['exhaustive_plan'] = ['table %d length %d %s alphabet' % (t, l, 'reduced' if r else 'full')
                                   for t, l, r in plan if l >= 3]
     ctx.cov['rule'] = (
-        'case = (table, argv) parsed after optreset=1 following a random other (table, argv) that '
-        'is abandoned after a random number of labels in 60% of the cases and whose strings are '
-        'freed; argv exhaustive over the per-table alphabet (registered shorts/longs with and '
+        'case = (table, opterr, argv) parsed after optreset=1 following a random other (table, argv) '
+        'that is abandoned once 1..4 labels were reached in 60% of the cases and whose strings are '
+        'freed; a table is a set of options AND a source layout (the library indexes its table by the '
+        'line of each label relative to GETOPT_SWITCH): tables 0-5 have one statement block per '
+        'label, tables 6-13 are compact layouts with labels in the boundary slots - slot 0 (on the '
+        'GETOPT_SWITCH line), slot 1, the slot directly above GETOPT_DEFAULT (GETOPT_OPTARG / short '
+        'GETOPT_OPT / long GETOPT_OPT / GETOPT_MISSING_ARG falling through into the default block, '
+        'or a one-line label with its own statement), labels on consecutive lines sharing a '
+        'statement, GETOPT_MISSING_ARG first / between labels / last / absent, zero slots, one slot, '
+        '272 slots with labels in slots 255 and 256 (see "tables"); a block shared with GETOPT_DEFAULT '
+        'records (string returned by GETOPT, optarg, optind) and the model knows that a registered '
+        'option consumes its argument there while an unknown one does not; the number of lines the '
+        'library writes to stderr is compared (opterr=1 in 30% of the cases: one line per rejected '
+        'option unless the table has GETOPT_MISSING_ARG); argv exhaustive over the per-table alphabet (registered shorts/longs with and '
         'without =v, "=", unknown options, "-", "--", "", operands, packs mixing argument-taking '
         'options, abbreviations/extensions of long names) for the lengths listed in '
         'exhaustive_plan, random to length 8; a sample is parsed as the first parse of a fresh '
         'process.  non-trivial = the model uses at least one rule beyond "first operand stops" '
         '(pack, attached/next/= argument, --, unknown, unwanted =value, missing argument); '
-        'distinct = distinct (table, label sequence, final optind, rules used)')
+        'distinct = distinct (table, label sequence, final optind, rules used incl. warned / '
+        'warnings silenced)')
     ctx.cov['sanitizers'] = ('gcc -fsanitize=address,undefined; every argv string and the argv array '
                              '(argc+1 pointers) are exact-size heap blocks; previous argv freed before the next parse')
     ctx.assumptions += [
@@ -501,7 +568,19 @@ def run(ctx):
         '(standard getopt behaviour; the header is silent)',
         "'=' has no special meaning after a short option: it is the next letter of the pack or part "
         'of the attached argument',
-        'optarg is compared at GETOPT_OPTARG labels only; warnings on stderr are not compared',
+        'optarg is compared at GETOPT_OPTARG labels and in blocks shared with GETOPT_DEFAULT (tables 6-13), '
+        'where it must be NULL for an unknown option, an unwanted =value and a missing argument',
+        'in a GETOPT_DEFAULT / GETOPT_MISSING_ARG block the string returned by GETOPT is the registered '
+        'option string when a registered option is rejected (unwanted =value, missing argument), the '
+        'whole command-line element for an unregistered long option and "-c" for an unregistered '
+        'letter c; optind inside a pack still designates the pack (standard getopt behaviour)',
+        'warnings: exactly one line on stderr per option that reaches GETOPT_DEFAULT because it is '
+        'unknown / has an unwanted =value / lacks its argument, when opterr != 0 and the table has no '
+        'GETOPT_MISSING_ARG; none otherwise (getopt.h: GETOPT_MISSING_ARG disables the warnings "as if '
+        'opterr had been zeroed").  Only the number of lines is compared, not their text',
+        'a GETOPT_OPT label is never placed directly above a GETOPT_OPTARG label without a break: '
+        'falling from one into the other trips the assert(optarg != NULL) of GETOPT_OPTARG (usage '
+        'constraint of the macros, not judged)',
     ]
 
 
